@@ -652,13 +652,19 @@ fn corr() -> impl Strategy<Value = Corr> {
     ]
 }
 
+pub fn case() -> impl Strategy<Value = Case> {
+    (prop_oneof![3 => 1u8..=9, 1 => Just(0u8)], prop::collection::vec(build_op(), 1..40), prop::collection::vec(build_op(), 1..12), prop_oneof![2 => prop::collection::vec(corr(), 1..=1), 1 => prop::collection::vec(corr(), 2..=3)]).prop_map(|(rotation, build, other, script)| Case { rotation, build, other, script })
+}
+pub fn check(c: &Case) -> Verdict {
+    run_case(c)
+}
+
 pub fn run(run: &Run) {
     run.assume("damage that leaves only complete, genuine records (duplicating or moving a whole record, cutting a log exactly on a record boundary, deleting a whole file) need not be reported - it is indistinguishable from a shorter or reordered genuine log; the recovered values must still be genuine and agree with the reference replay");
     run.assume("reference replay: a framed record counts iff it is field-for-field identical (incl. its tag) to a record this store wrote; batches need their commit marker; the newest snapshot whose stored checksum matches its data is the base");
     run.set_rule("corrupt", "cleanly closed directory from a generated history (rotation threshold 3..11, snapshots in part of the cases) + a second store for transplants, then 1..3 corruptions (bit flips, overwrite, truncate, append, duplicate/move/transplant a record, length-prefix rewrite 0/len±1/0x7fffffff/0xffffffff, key/value re-split keeping the tag, file deletion, key-file damage); non-trivial = the corruption hits a record that decides the final value of a key, or the recovered state differs from the undamaged final state");
     let sh = shards_for(run.tier);
     run.max_shrink.store(400, std::sync::atomic::Ordering::Relaxed);
-    let case = || (prop_oneof![3 => 1u8..=9, 1 => Just(0u8)], prop::collection::vec(build_op(), 1..40), prop::collection::vec(build_op(), 1..12), prop_oneof![2 => prop::collection::vec(corr(), 1..=1), 1 => prop::collection::vec(corr(), 2..=3)]).prop_map(|(rotation, build, other, script)| Case { rotation, build, other, script });
     run.prop_f("corrupt", run.tier.pick(4000, 100_000), sh, case, run_case);
 }
 
